@@ -182,7 +182,7 @@ def run_handler(facts, roles, hb, live, dead, docs, plan, rel, source=0, with_ct
                 upv[i] = ('ref', Cell(actor))
             else:
                 upv[i] = build_value(facts, ty, leaf)
-        it, r = actor_abs.run_coroutine(facts, body, upv, world, order=Order(rel), choices=choices)
+        it, r = actor_abs.run_coroutine(facts, body, upv, world, order=Order(rel), choices=choices, symbolic_len=True)
         lv, dd = roles.read_set(set_value)
         return it.oracle_log, (world.trace, lv, dd, r)
     return absint.explore(run)
